@@ -652,7 +652,35 @@ def rule_depth(fx, rep):
         rep.obligation(good)
         if not good:
             bad("after-ok", "a search progress report is not dominated by the Ok edge of the iteration's aspiration search", rt.get("line"))
-    rep.rule("C08-DEPTH", n, 3, ok, "reported depth is the iteration variable; one report per completed iteration")
+    # the requested limit reaches the iteration range: every SearchRestrictions value built in the go handler takes its depth from
+    # the command's own `depth` argument - whatever time control is selected alongside (seed C08-6b: `go depth 2 movetime 1500`
+    # searched without the depth limit because only the untimed arm kept it)
+    import pC05
+    ex = fx.one("uci::Uci::execute")
+    arms = pC05.arm_regions(fx, ex)
+    if "Go" in arms:
+        _entry, region = arms["Go"]
+        built = []
+        for bb in sorted(region):
+            for j, st in enumerate(ex.blocks[bb]["stmts"]):
+                rv = st.get("rv")
+                if st["k"] == "assign" and rv and rv["k"] == "agg" and rv.get("agg") == "adt" and norm(rv["adt"]).endswith("search::SearchRestrictions"):
+                    m = dict(zip(rv["fields"], rv["ops"]))
+                    e = ex.expr(m["depth"], expand_named=True, at=bb) if "depth" in m else None
+                    from_cmd = e is not None and any(isinstance(x, tuple) and len(x) == 3 and x[0] == "field" and x[2] == "depth" and
+                                                     any(isinstance(y, tuple) and len(y) == 3 and y[0] == "as" and y[2] == "Go" for y in walk(x[1])) for x in walk(e))
+                    built.append((from_cmd, st.get("line"), show(e)[:80] if e is not None else None))
+            t = ex.blocks[bb]["term"]
+            if t["k"] == "call" and (ex.local_ty(t["dest"]["l"]) or "").endswith("search::SearchRestrictions") and not t["dest"].get("p"):
+                built.append((False, t.get("line"), norm(callee_name(t) or "?").split("::")[-1] + "()"))
+        if not built:
+            rep.notes.append("C08-DEPTH: no SearchRestrictions value is built in the go handler itself; the wiring of the requested depth is not decided")
+        for from_cmd, line, what in built:
+            n += 1
+            rep.obligation(from_cmd)
+            if not from_cmd:
+                bad("limit-dropped", f"uci line {line}: a SearchRestrictions value is built with depth `{what}`, not the `depth` argument of the go command: on that path a requested depth limit is ignored")
+    rep.rule("C08-DEPTH", n, 3, ok, "reported depth is the iteration variable; one report per completed iteration; the requested limit reaches the range")
 
 
 def rule_mate(fx, rep, neg):
@@ -752,6 +780,8 @@ def _c03_mutant(tag, expect):
 
 
 MUTANTS = [
+    {"name": "timed searches built without the requested depth limit (seed C08-6b)", "expect": "C08-DEPTH/limit-dropped",
+     "edits": [("src/engine/uci/mod.rs", "                let search_restrictions = SearchRestrictions { depth: *depth };", "                let search_restrictions = if matches!(time_control, TimeControl::Infinite) {\n                    SearchRestrictions { depth: *depth }\n                } else {\n                    SearchRestrictions::default()\n                };")]},
     _c03_mutant("seed C08-5b", "C08-KEY/SCRATCH/right/loop-colour"),
     {"name": "reduced zero-window result accepted after a second zero-window search (seed C08-4a)", "expect": "C08-ZEROWIN",
      "edits": [("src/engine/search/negamax.rs", "            if pvs_score > alpha && pvs_score < beta {\n                -negamax(game, -beta, -alpha, depth - 1, plies + 1, &mut node_pv, ctx)?", "            if pvs_score > alpha && reduction > 1 {\n                -negamax(game, -alpha - Eval(1), -alpha, depth - 1, plies + 1, &mut node_pv, ctx)?\n            } else if pvs_score > alpha && pvs_score < beta {\n                -negamax(game, -beta, -alpha, depth - 1, plies + 1, &mut node_pv, ctx)?")]},
